@@ -59,9 +59,13 @@ func VerifC10Cancel() {
 		// ... or sooner
 		ctx.deadline, ctx.hasDL, ctx.expires = time.Now().Add(400*time.Millisecond), true, true
 	}
-	if verifChoice("cancel-write", 2) == 1 {
+	switch verifChoice("cancel-write", 3) {
+	case 1:
 		// the Cancel packet is best effort: when it cannot be written the connection is closed all the same
 		conn.brokenOnce = ctx
+	case 2:
+		// ... and when the peer has stopped reading, the attempt is bounded in time
+		conn.stalledOnce = ctx
 	}
 	err := c.Do(ctx, s.q)
 	if !ctx.cancelled {
